@@ -631,6 +631,10 @@ func runC05(c *Ctx, pr *PropertyRun) {
 	// after a file carries the file's size, type and tag)
 	freshHolderRule(c, pr, "C05")
 	streamedLengthRule(c, pr, "C05")
+	// optional properties (entity tag, content type) are asked for one at a time
+	if dp := c.P.Func(pkgInternal, "(*Response).DecodeProp"); dp != nil {
+		decodePropOptionalRule(c, pr, "C05", dp)
+	}
 	truncateRule(c, pr, "C05", nil)
 
 	urlParseRule(c, pr, "C05", nil)
